@@ -456,6 +456,10 @@ namespace occa {
 
       if (src && props.get("use_host_pointer", false)) {
         buf->wrapMemory(src, bytes);
+        // Unlike device::wrapMemory this is an allocation of the device:
+        // it is counted in bytesAllocated, so it must be un-counted when it is
+        // released (own_host_pointer decides who frees the host pointer)
+        buf->isWrapped = false;
       } else {
         buf->malloc(bytes);
       }
